@@ -48,8 +48,8 @@ type T3 struct {
 	E RErr `json:"e,omitempty"`
 }
 
-func succ(v int) T3    { return T3{S: success, V: v} }
-func fail(e RErr) T3   { return T3{S: failure, E: e} }
+func succ(v int) T3       { return T3{S: success, V: v} }
+func fail(e RErr) T3      { return T3{S: failure, E: e} }
 func sentinel(k int) RErr { return RErr{eSentinel, k} }
 
 func (e RErr) code() int {
